@@ -1,6 +1,7 @@
 import Driver.Common
 import CoapVerif.Model.PoolOptions
 import CoapVerif.Model.OptionGlue
+import CoapVerif.Model.PoolOptionsReceive
 import CoapVerif.Spec.SortedMultiset
 /-!
 Driver for C15.  `drv_c15 model` replays operation lines on `Model/Options*.lean` / `Model/PoolOptions.lean` and prints
@@ -14,6 +15,8 @@ open CoapVerif.Spec (SortedMultiset.Op SortedMultiset.Obs SortedMultiset.RefStat
 /-- growth policies used when *executing* the model (the theorems hold for all): doubling -/
 def g (c : Nat) : Nat := if c = 0 then 1 else 2 * c
 def gb (c need : Nat) : Nat := max (2 * c) need
+/-- restart policy of the decoder's option array (`pool.Message.decode`): twice the capacity, 16 for an empty one -/
+def dc (c : Nat) : Nat := if c = 0 then 16 else 2 * c
 
 structure Slot where
   opts : Options View
@@ -151,6 +154,11 @@ def step (s : St) (ws : List String) : Out :=
           | none => pure ({ s with mem := m1 }, s!"ret invalid 0 {tail}")
           | some its => pure ({ s with mem := m1 }, s!"ret ok {fmtItems its} {tail}"))
     | _, _, _ => ("bad-op", some s)
+  | "recv" :: _n :: items =>
+    if !s.pool then ("bad-op", some s) else
+    match parseItems items with
+    | none => ("bad-op", some s)
+    | some inp => runM s (do let r ← s.msg.receive dc inp; let s' := s.put r; pure (s', s!"ret ok {vbLen s'}"))
   | ["recycle"] =>
     if !s.pool then ("bad-op", some s) else
     runM s (do let r ← s.msg.reset; let s' := s.put r; pure (s', s!"ret ok {vbLen s'}"))
@@ -334,6 +342,7 @@ def parseOp (ws : List String) : Option Op :=
   | ["obsreq"] => some .obsReq
   | ["obscancel"] => some .obsCancel
   | ["recycle"] => some .recycle
+  | "recv" :: _ :: items => do pure (.recv (← parseItems items))
   | ["notify", e] => do pure (.notify (← parseHex? e))
   | "build" :: kind :: path :: cf :: body :: spare :: _ :: items => do
     pure (.build kind (← parseHex? path) (← cf.toNat?) (body == "1") (← spare.toNat?) (← parseItems items))
